@@ -100,7 +100,7 @@ def _long_seqs(tier):
     """Depth ladder: fixed long batch sequences (no 'qmax' batches: an average that hits exactly 1.0 is the known finding F-C12-1)."""
     kinds = [k for k in KINDS if k != "qmax"]
     out = []
-    for p, (L, split) in enumerate([(24, None), (40, 13), (40, 27)] if tier == "quick" else [(24, None), (40, 13), (40, 27), (120, None), (120, 61), (300, 150)]):
+    for p, (L, split) in enumerate([(24, None), (40, 13), (64, None)] if tier == "quick" else [(24, None), (40, 13), (40, 27), (120, None), (120, 61), (300, 150)]):
         x = 4242 + 977 * p
         seq = []
         for _ in range(L):
